@@ -17,6 +17,8 @@ func main() {
 	switch *prop {
 	case "C01":
 		rep = suiteParse("C01", *tier, *seed, *model, map[string]bool{"accept": true})
+	case "C04":
+		rep = suiteWrite(*tier, *seed, *model)
 	case "C05":
 		rep = suiteGet(*tier, *seed, *model)
 	case "C11":
